@@ -509,7 +509,7 @@ func zzH_C12_snapshot_restore(t *zzT) {
 //
 //zz:opt loop=16
 //zz:quick N=1 K1=1 K2=1 K3=1 VLO=0 VHI=1 READS=1 KLO=2 KHI=2 QLO=1 QHI=1
-//zz:thorough N=2 K1=1 K2=1 K3=2 VLO=0 VHI=1 READS=1
+//zz:thorough N=1 K1=1 K2=1 K3=2 VLO=0 VHI=1 READS=1 paths=4000000 budget=3600s
 func zzH_C12_snapshot_commit_revert(t *zzT) {
 	sc := zzBuild(t, 1)
 	k1, k2, k3 := t.Param("K1", 1), t.Param("K2", 1), t.Param("K3", 1)
@@ -566,7 +566,7 @@ func zzH_C12_commit_reopen(t *zzT) {
 //
 //zz:opt loop=16 require=created-then-deleted,overwritten-then-deleted,deleted-then-recreated
 //zz:quick N=2 K=2 VLO=1 READS=1
-//zz:thorough N=1 K=3 VHI=2 READS=1 paths=1000000
+//zz:thorough N=1 K=3 VHI=2 READS=1 paths=2000000 budget=3600s
 func zzH_C05_commit_revert(t *zzT) {
 	sc, infos, diff := zzCommitScenario(t)
 	t.Assert(zzSameStore(sc.store, sc.ref), "Commit writes exactly the staged final state")
